@@ -3,20 +3,17 @@
 TIER=${1:-quick}; J=${2:-1}
 cd "$(dirname "$0")/.." || exit 2
 mkdir -p /tmp/verif-runall
-/venv/bin/python - "$TIER" <<'PY' > /tmp/verif-runall/cmds
+/venv/bin/python - "$TIER" <<'PY' > /tmp/verif-runall/ids
 import json,sys
 m=json.load(open('MANIFEST.json'))
 for c in m['checks']:
-    print(c['property_id'], c['quick_cmd'] if sys.argv[1]=='quick' else c.get('thorough_cmd',c['quick_cmd']), sep='\t')
+    open('/tmp/verif-runall/%s.cmd'%c['property_id'],'w').write(c['quick_cmd'] if sys.argv[1]=='quick' else c.get('thorough_cmd',c['quick_cmd']))
+    print(c['property_id'])
 PY
-run1() { id=$1; shift; s=$(date +%s); sh -c "$*" > /tmp/verif-runall/$id.out 2>&1; rc=$?; e=$(date +%s); printf "%s rc=%s %ss %s\n" "$id" "$rc" "$((e-s))" "$(grep -c '^KNOWN-FINDING' /tmp/verif-runall/$id.out) known; $(grep -E '^(VIOLATION|HARNESS)' /tmp/verif-runall/$id.out | head -2 | tr '\n' ' ')"; }
-if [ "$J" = 1 ]; then
-  while IFS="$(printf '\t')" read -r id cmd; do run1 "$id" "$cmd"; done < /tmp/verif-runall/cmds
-else
-  export -f run1 2>/dev/null
-  while IFS="$(printf '\t')" read -r id cmd; do
-    ( run1 "$id" "$cmd" ) &
-    while [ "$(jobs -r | wc -l)" -ge "$J" ]; do sleep 0.5; done
-  done < /tmp/verif-runall/cmds
-  wait
-fi
+cat > /tmp/verif-runall/run1.sh <<'SH'
+#!/bin/sh
+id=$1; s=$(date +%s); sh -c "$(cat /tmp/verif-runall/$id.cmd)" > /tmp/verif-runall/$id.out 2>&1; rc=$?; e=$(date +%s)
+printf "%s rc=%s %ss %s known; %s\n" "$id" "$rc" "$((e-s))" "$(grep -c '^KNOWN-FINDING' /tmp/verif-runall/$id.out)" "$(grep -E '^(VIOLATION|HARNESS)' /tmp/verif-runall/$id.out | head -2 | tr '\n' ' ')"
+SH
+chmod +x /tmp/verif-runall/run1.sh
+xargs -P "$J" -n 1 /tmp/verif-runall/run1.sh < /tmp/verif-runall/ids
